@@ -143,6 +143,7 @@ def run(tier, seed):
     rep.assumptions += ['decided: checked extraction, guarded sinks, loop progress, argv bounds, exceptions as the only error channel',
                         'not decided: absence of crashes for ALL byte strings (a fuzzing statement); allocation behaviour inside libstdc++']
     _bounds(rep, prog)
+    _bounds_pdf(rep, prog)
     return rep
 
 
@@ -243,3 +244,24 @@ def _bounds(rep, prog):
     ok3 = bool(g3) and all(any(F.dominates(b, r) for b in g3) for r in rets)
     rep.add('BOUNDS', 'rows.count', where(fn, rets[0].line if rets else None), 'before returning, the number of decoded E2 rows is compared with nsamples and a '
             'shortfall raises (the sampler subscripts e2_cprobs[] with any E1 index)', ok3)
+
+
+def _bounds_pdf(rep, prog):
+    """the p.d.f. loader: the interpolator and the rejection sampler read n1 x n2 values and the two energy grids"""
+    fn = prog.fn('bxdecay0::dbd_gA::_load_tabulated_pdf_')
+    F = cppflow.Flow(fn)
+    g = F.g
+    guards = F.throw_guards()
+    rets = [n for n in g.nodes if n.kind == 'return']
+    pushes = [n for n, name, a in F.call_nodes(lambda s: s.endswith('push_back')) if '.prob' in ir.fmt_stmt(n.stmt) and 'cprob' not in ir.fmt_stmt(n.stmt)]
+    if not pushes or not rets:
+        raise AnalysisBroken('_load_tabulated_pdf_: anchors not found (prob push_back / return)')
+    g3 = []
+    for b, arm in guards:
+        t = ir.fmt(b.stmt[1])
+        counts = ('e2_pdf_count' in t or 'prob_index' in t or ('prob' in t and 'size' in t))
+        if counts and ('nsamples' in t or 'n1' in t or 'e_nsamples' in t) and not any(p.id in F.reach(b.id) for p in pushes):
+            g3.append(b)
+    ok = bool(g3) and all(any(F.dominates(b, r) for b in g3) for r in rets)
+    rep.add('BOUNDS', 'pdf.rows.count', where(fn, rets[0].line), 'before returning, the number of decoded p.d.f. rows / values is compared with the '
+            'declared sample count and a shortfall raises (gsl_interp2d_init and the rejection sampler read n1 x n2 values and both energy grids)', ok)
